@@ -489,3 +489,211 @@ Proof.
   apply andb_true_iff in E. destruct E as [_ E]. apply Nat.ltb_lt in E.
   destruct (idx_lt body (bi - 1)) as (p & ->); [lia|]. reflexivity.
 Qed.
+
+(* ================================================================== *)
+(* muxer.readLoop framing *)
+Lemma idx_byte data i b : all_bytes data -> idx data i = Val b -> b < 256.
+Proof.
+  intros Hb. unfold idx. destruct (nth_error data i) eqn:En; [|discriminate]. intros [= <-].
+  eapply Forall_forall in Hb; [exact Hb|]. eapply nth_error_In; eauto.
+Qed.
+
+Definition sumN (l : list N) : N := fold_right N.add 0 l.
+
+Lemma mux_read_spec : forall fuel conn segs allocs, all_bytes conn -> (length conn < 9 * fuel)%nat ->
+  bad (mux_read fuel conn segs allocs) = false /\
+  forall s a, mux_read fuel conn segs allocs = Val (s, a) ->
+    (forall x, In x a -> In x allocs \/ x <= 65535) /\
+    sumN a <= sumN allocs + N.of_nat (length conn) + 65535 /\
+    (9 * (s - segs) <= length conn)%nat.
+Proof.
+  induction fuel as [|f IH]; intros conn segs allocs Hb Hf; [lia|].
+  cbn [mux_read]. destruct (Nat.ltb_spec (length conn) 8) as [L|L].
+  { split; [reflexivity|]. intros s a [= <- <-]. repeat split; [auto|lia|lia]. }
+  destruct (idx_lt conn 6) as (hi & Ehi); [lia|]. destruct (idx_lt conn 7) as (lo & Elo); [lia|].
+  rewrite Ehi, Elo. cbn [bind].
+  pose proof (idx_byte _ _ _ Hb Ehi). pose proof (idx_byte _ _ _ Hb Elo).
+  destruct (N.eqb_spec (hi * 256 + lo) 0) as [Z0|Z0].
+  { split; [reflexivity|]. intros s a [= <- <-]. repeat split; [auto|lia|lia]. }
+  destruct (Nat.ltb_spec (length conn) (8 + N.to_nat (hi * 256 + lo))) as [L2|L2].
+  { split; [reflexivity|]. intros s a [= <- <-]. repeat split.
+    - intros x [<-|Hx]; [right; lia|left; exact Hx].
+    - cbn [sumN fold_right]. fold (sumN allocs). lia.
+    - lia. }
+  assert (Hb' : all_bytes (skipn (8 + N.to_nat (hi * 256 + lo)) conn)).
+  { unfold all_bytes in *. rewrite <- (firstn_skipn (8 + N.to_nat (hi * 256 + lo)) conn) in Hb. apply Forall_app in Hb. tauto. }
+  destruct (IH (skipn (8 + N.to_nat (hi * 256 + lo)) conn) (S segs) ((hi * 256 + lo) :: allocs) Hb') as [B R].
+  { rewrite skipn_length. lia. }
+  split; [exact B|]. intros s a E. destruct (R s a E) as (R1 & R2 & R3). rewrite skipn_length in *. repeat split.
+  - intros x Hx. destruct (R1 x Hx) as [[<-|Hi]|Hle]; [right; lia|left; exact Hi|right; exact Hle].
+  - cbn [sumN fold_right] in R2. fold (sumN allocs) in R2. lia.
+  - lia.
+Qed.
+
+(* protocol.readLoop buffer handling; the library contract: NumBytesRead <= len(buffer) *)
+Section proto.
+  Variable lib : bytes -> option (nat * nat).
+  Hypothesis lib_reads_within : forall buf n k, lib buf = Some (n, k) -> (n <= length buf)%nat.
+
+  Lemma proto_read_spec : forall fuel buf msgs, (length buf < fuel)%nat ->
+    bad (proto_read lib fuel buf msgs) = false /\
+    forall m, proto_read lib fuel buf msgs = Val m -> (m <= msgs + length buf)%nat.
+  Proof.
+    induction fuel as [|f IH]; intros buf msgs Hf; [lia|].
+    cbn [proto_read]. destruct (Nat.eqb_spec (length buf) 0); [split; [reflexivity|intros m [= <-]; lia]|].
+    destruct (lib buf) as [[n' k]|] eqn:El; [|split; [reflexivity|intros m [= <-]; lia]].
+    pose proof (lib_reads_within _ _ _ El) as Hn.
+    destruct (Nat.eqb_spec n' 0) as [N0|N0]; cbn [orb]; [split; [reflexivity|intros m [= <-]; lia]|].
+    destruct (Nat.eqb_spec k 0) as [K0|K0]; [split; [reflexivity|intros m [= <-]; lia]|].
+    destruct (Nat.ltb_spec 0 k); [|lia]. cbn [bind]. rewrite slice_ok by lia. cbn [bind].
+    destruct (Nat.ltb_spec n' (length buf)).
+    - rewrite slice_from_ok by lia. cbn [bind]. destruct (IH (skipn n' buf) (S msgs)) as [B R]; [rewrite skipn_length; lia|].
+      split; [exact B|]. intros m E. specialize (R m E). rewrite skipn_length in R. lia.
+    - split; [reflexivity|intros m [= <-]; lia].
+  Qed.
+End proto.
+
+(* ================================================================== *)
+(* cbor/diagnostic.go: index safety of parseDiagnosticNode and its loops,
+   for EVERY fuel (termination of this walker is not proved here) *)
+Definition panics {A} (r : out A) : bool := match r with Panic => true | _ => false end.
+
+Lemma panics_bind {A B} (r : out A) (k : A -> out B) :
+  panics r = false -> (forall a, r = Val a -> panics (k a) = false) -> panics (bind r k) = false.
+Proof. destruct r; cbn; intros H1 H2; try discriminate; auto. Qed.
+
+Lemma bind_val {A B} (r : out A) (k : A -> out B) v : bind r k = Val v -> exists a, r = Val a /\ k a = Val v.
+Proof. destruct r; cbn; try discriminate. eauto. Qed.
+
+Lemma bad_panics {A} (r : out A) : bad r = false -> panics r = false.
+Proof. destruct r; cbn; congruence. Qed.
+
+Section diag.
+  Variable ok : item -> bool.
+  Variable data : bytes.
+  Let L := length data.
+
+  Definition node_ok (fuel : nat) := forall depth pos,
+    panics (diag_node ok fuel data depth pos) = false /\
+    forall n e, diag_node ok fuel data depth pos = Val (n, e) -> (pos < e <= L)%nat.
+  Definition count_ok (fuel : nat) := forall depth pos k, (pos <= L)%nat ->
+    panics (diag_count ok fuel data depth pos k) = false /\
+    forall ks e, diag_count ok fuel data depth pos k = Val (ks, e) -> (pos <= e <= L)%nat.
+  Definition indef_ok (fuel : nat) := forall depth pos per chunk,
+    panics (diag_indef ok fuel data depth pos per chunk) = false /\
+    forall ks e, diag_indef ok fuel data depth pos per chunk = Val (ks, e) -> (pos < e <= L)%nat.
+
+  (* a container / tag / chunked string node: header consumed, children parsed, data[start:end] *)
+  Lemma wrap_ok {K} (pos hl : nat) (r : out (K * nat)) (mk : K -> list dnode) :
+    (1 <= hl)%nat ->
+    panics r = false -> (forall ks e, r = Val (ks, e) -> (pos + hl <= e <= L)%nat) ->
+    let res := (x <- r ;; let '(kids, e) := x in _ <- slice data pos e ;; Val (DN pos (e - pos) (mk kids), e)) in
+    panics res = false /\ forall n e, res = Val (n, e) -> (pos < e <= L)%nat.
+  Proof.
+    intros Hh Hp Hr. cbv zeta. destruct r as [[ks e]| | |]; cbn [bind]; try discriminate; try (split; [reflexivity|discriminate]).
+    destruct (Hr ks e eq_refl) as [H1 H2]. rewrite slice_ok by (unfold L in *; lia). cbn [bind].
+    split; [reflexivity|]. intros n e' [= _ <-]. lia.
+  Qed.
+
+  Lemma diag_count_S f depth pos k : diag_count ok (S f) data depth pos k =
+    if k =? 0 then Val ([], pos) else
+      r <- diag_node ok f data depth pos ;;
+      let '(kid, p1) := r in
+      r2 <- diag_count ok f data depth p1 (k - 1) ;;
+      let '(kids, e) := r2 in Val (kid :: kids, e).
+  Proof. reflexivity. Qed.
+
+  Lemma diag_indef_S f depth pos per chunk : diag_indef ok (S f) data depth pos per chunk =
+      if Nat.leb (length data) pos then Err else
+      b <- idx data pos ;;
+      if b =? 255 then
+        (if Nat.ltb (length data) (pos + 1) then Err else Val ([], (pos + 1)%nat))
+      else
+        r <- diag_node ok f data depth pos ;;
+        let '(k1, p1) := r in
+        _ <- (if negb (chunk =? 0) && (negb (N.land b 224 =? chunk) || (N.land b 31 =? 31)) then Err else Val tt) ;;
+        r1 <- (if Nat.eqb per 2 then
+                 r' <- diag_node ok f data depth p1 ;; let '(k2, p2) := r' in Val ([k1; k2], p2)
+               else Val ([k1], p1)) ;;
+        let '(ks, p2) := r1 in
+        r2 <- diag_indef ok f data depth p2 per chunk ;;
+        let '(kids, e) := r2 in Val (ks ++ kids, e).
+  Proof. reflexivity. Qed.
+
+  Lemma diag_all : forall fuel, node_ok fuel /\ count_ok fuel /\ indef_ok fuel.
+  Proof.
+    induction fuel as [|f (IHn & IHc & IHi)].
+    { repeat split; try reflexivity; cbn; discriminate. }
+    assert (Hnode : node_ok (S f)).
+    { intros depth pos. cbn [diag_node].
+      destruct (Nat.ltb max_diag_depth depth); [split; [reflexivity|discriminate]|].
+      destruct (Nat.leb_spec (length data) pos) as [Lp|Lp]; [split; [reflexivity|discriminate]|].
+      destruct (idx_lt data pos Lp) as (first & ->). cbn [bind].
+      assert (PRIM : panics (match sd_next ok data pos with
+                             | None => Err
+                             | Some (_, n) => _ <- slice data pos (pos + n) ;; Val (DN pos n [], (pos + n)%nat) end) = false /\
+                     forall n e, match sd_next ok data pos with
+                             | None => Err
+                             | Some (_, n) => _ <- slice data pos (pos + n) ;; Val (DN pos n [], (pos + n)%nat) end = Val (n, e) -> (pos < e <= L)%nat).
+      { destruct (sd_next ok data pos) as [[it n]|] eqn:E; [|split; [reflexivity|discriminate]].
+        apply sd_next_bounds in E. rewrite slice_ok by lia. cbn [bind]. split; [reflexivity|]. intros n' e [= _ <-]. unfold L. lia. }
+      destruct ((N.land first 224 =? 0) || (N.land first 224 =? 32) || (N.land first 224 =? 224)); [exact PRIM|].
+      destruct ((N.land first 224 =? 64) || (N.land first 224 =? 96)).
+      { destruct (N.land first 31 =? 31); [|exact PRIM].
+        destruct (Nat.ltb_spec (length data) (pos + 1)); cbn [bind]; [split; [reflexivity|discriminate]|].
+        destruct (IHi (S depth) (pos + 1)%nat 1%nat (N.land first 224)) as [P R].
+        apply (wrap_ok pos 1 _ (fun k => k)); [lia|exact P|]. intros ks e E. specialize (R ks e E). lia. }
+      destruct ((N.land first 224 =? 128) || (N.land first 224 =? 160)).
+      { destruct (collection_header_spec data pos) as [B R].
+        destruct (collection_header data pos) as [[[len hl] ind]| | |]; cbn [bind]; try discriminate; try (split; [reflexivity|discriminate]).
+        destruct (R _ _ _ eq_refl) as [Hh _].
+        destruct (Nat.ltb_spec (length data) (pos + hl)); cbn [bind]; [split; [reflexivity|discriminate]|].
+        apply (wrap_ok pos hl _ (fun k => k)); [lia| |].
+        - destruct ind; [apply IHi|apply IHc; unfold L; lia].
+        - intros ks e E. destruct ind.
+          + destruct (IHi (S depth) (pos + hl)%nat (if N.land first 224 =? 160 then 2%nat else 1%nat) 0) as [_ R']. specialize (R' ks e E). lia.
+          + destruct (IHc (S depth) (pos + hl)%nat (len * N.of_nat (if N.land first 224 =? 160 then 2 else 1))) as [_ R']; [unfold L; lia|]. specialize (R' ks e E). lia. }
+      destruct (tag_header_spec data pos) as [B R].
+      destruct (tag_header data pos) as [[t hl]| | |]; cbn [bind]; try discriminate; try (split; [reflexivity|discriminate]).
+      destruct (R _ _ eq_refl) as [Hh _].
+      destruct (Nat.ltb_spec (length data) (pos + hl)); cbn [bind]; [split; [reflexivity|discriminate]|].
+      destruct (IHn (S depth) (pos + hl)%nat) as [P R'].
+      apply (wrap_ok pos hl _ (fun k => [k])); [lia|exact P|]. intros ks e E. specialize (R' ks e E). lia. }
+    split; [exact Hnode|]. split.
+    - intros depth pos k Hp. rewrite diag_count_S. destruct (k =? 0); [split; [reflexivity|intros ks e [= _ <-]; lia]|].
+      destruct (IHn depth pos) as [P R].
+      destruct (diag_node ok f data depth pos) as [[kid p1]| | |]; cbn [bind]; try discriminate; try (split; [reflexivity|discriminate]).
+      specialize (R _ _ eq_refl). destruct (IHc depth p1 (k - 1)) as [P2 R2]; [lia|].
+      destruct (diag_count ok f data depth p1 (k - 1)) as [[kids e]| | |]; cbn [bind]; try discriminate; try (split; [reflexivity|discriminate]).
+      specialize (R2 _ _ eq_refl). split; [reflexivity|]. intros ks e' [= _ <-]. lia.
+    - intros depth pos per chunk. rewrite diag_indef_S.
+      destruct (Nat.leb_spec (length data) pos) as [Lp|Lp]; [split; [reflexivity|discriminate]|].
+      destruct (idx_lt data pos Lp) as (b & ->). cbn [bind].
+      destruct (b =? 255).
+      { destruct (Nat.ltb_spec (length data) (pos + 1)); [split; [reflexivity|discriminate]|].
+        split; [reflexivity|]. intros ks e [= _ <-]. unfold L. lia. }
+      destruct (IHn depth pos) as [P R].
+      destruct (diag_node ok f data depth pos) as [[k1 p1]| | |]; cbn [bind]; try discriminate; try (split; [reflexivity|discriminate]).
+      specialize (R _ _ eq_refl).
+      destruct (negb (chunk =? 0) && (negb (N.land b 224 =? chunk) || (N.land b 31 =? 31))); cbn [bind]; [split; [reflexivity|discriminate]|].
+      assert (SECOND : exists r1, (if Nat.eqb per 2 then r' <- diag_node ok f data depth p1 ;; (let '(k2, p2) := r' in Val ([k1; k2], p2)) else Val ([k1], p1)) = r1 /\
+                 panics r1 = false /\ forall ks p2, r1 = Val (ks, p2) -> (p1 <= p2 <= L)%nat).
+      { eexists. split; [reflexivity|]. destruct (Nat.eqb per 2); [|split; [reflexivity|intros ks p2 [= _ <-]; lia]].
+        destruct (IHn depth p1) as [P' R'].
+        destruct (diag_node ok f data depth p1) as [[k2 p2]| | |]; cbn [bind]; try discriminate; try (split; [reflexivity|discriminate]).
+        specialize (R' _ _ eq_refl). split; [reflexivity|]. intros ks p2' [= _ <-]. lia. }
+      destruct SECOND as (r1 & -> & P1 & R1).
+      destruct r1 as [[ks p2]| | |]; cbn [bind]; try discriminate; try (split; [reflexivity|discriminate]).
+      specialize (R1 _ _ eq_refl).
+      destruct (IHi depth p2 per chunk) as [P3 R3].
+      destruct (diag_indef ok f data depth p2 per chunk) as [[kids e]| | |]; cbn [bind]; try discriminate; try (split; [reflexivity|discriminate]).
+      specialize (R3 _ _ eq_refl). split; [reflexivity|]. intros ks' e' [= _ <-]. lia.
+  Qed.
+
+  Lemma parse_diagnostic_no_panic fuel : panics (parse_diagnostic ok fuel data) = false.
+  Proof.
+    unfold parse_diagnostic. destruct (diag_all fuel) as (Hn & _ & _). destruct (Hn 0%nat 0%nat) as [P _].
+    destruct (diag_node ok fuel data 0 0) as [[n e]| | |]; cbn [bind]; try discriminate; try reflexivity.
+    destruct (Nat.ltb e (length data)); reflexivity.
+  Qed.
+End diag.
